@@ -163,6 +163,59 @@ fn named_links(m: &Value) -> BTreeMap<String, String> {
     out
 }
 
+/// What the project TEXT says about by-name links, in the key form of `named_links`: the
+/// adjacent space of a wall, the construction of a window, the profiles of a space - only for
+/// elements whose name occurs once and only when the text itself defines the target.
+fn text_named_links(text: &str) -> BTreeMap<String, String> {
+    let lines = diskfault::split_lines(text);
+    let blocks = diskfault::scan_blocks(&lines);
+    let mut count: BTreeMap<(String, String), usize> = BTreeMap::new();
+    for b in &blocks {
+        *count.entry((b.btype.clone(), b.name.clone())).or_insert(0) += 1;
+    }
+    let defined = |t: &str, n: &str| count.get(&(t.to_string(), n.to_string())).copied().unwrap_or(0) == 1;
+    let mut out = BTreeMap::new();
+    let walls = ["EXTERIOR-WALL", "INTERIOR-WALL", "UNDERGROUND-WALL", "ROOF"];
+    for b in &blocks {
+        let (coll, rules): (&str, &[(&str, &str, &str)]) = match b.btype.as_str() {
+            // only a STANDARD partition has an adjacent space (an ADIABATIC one ignores NEXT-TO)
+            "INTERIOR-WALL" if (b.start + 1..b.end.min(lines.len())).any(|i| lines[i].trim_start().starts_with("INT-WALL-TYPE") && lines[i].contains("STANDARD")) => {
+                ("walls", &[("NEXT-TO", "next_to", "SPACE")])
+            }
+            "WINDOW" => ("windows", &[("GAP", "cons", "GAP")]),
+            "SPACE" => ("spaces", &[("SPACE-CONDITIONS", "loads", "SPACE-CONDITIONS"), ("SYSTEM-CONDITIONS", "thermostat", "SYSTEM-CONDITIONS")]),
+            _ => continue,
+        };
+        // the element name must be unique among the blocks that share its collection
+        let same_coll = blocks
+            .iter()
+            .filter(|o| o.name == b.name && (o.btype == b.btype || (coll == "walls" && walls.contains(&o.btype.as_str()))))
+            .count();
+        if same_coll != 1 || b.name.is_empty() {
+            continue;
+        }
+        for i in b.start + 1..b.end.min(lines.len()) {
+            // attributes of nested blocks belong to them
+            if diskfault::header_name(lines[i]).is_some() {
+                break;
+            }
+            if let Some((k, v)) = lines[i].split_once('=') {
+                let k = k.trim();
+                let v = v.trim();
+                for (attr, link, ttype) in rules {
+                    if k == *attr && v.starts_with('"') && v.ends_with('"') && v.len() >= 2 {
+                        let target = v[1..v.len() - 1].trim().to_string();
+                        if defined(ttype, &target) {
+                            out.insert(format!("{}/{}/{}", coll, b.name.trim(), link), target);
+                        }
+                    }
+                }
+            }
+        }
+    }
+    out
+}
+
 thread_local! {
     static BASE_NAMED: std::cell::RefCell<std::collections::HashMap<String, Option<BTreeMap<String, String>>>> = Default::default();
 }
@@ -488,6 +541,34 @@ pub fn run(ctx: &mut WorkerCtx, job: &Value) -> JobOutput {
                     } else {
                         vec![]
                     };
+                    // the links the project text itself spells out must be in the model, and
+                    // point at the element of that name
+                    let mut retargeted = retargeted;
+                    if job["closure"] == true && job["text_oracle"] == true {
+                        let nl = named_links(&v);
+                        let mut has_elem: std::collections::HashSet<String> = Default::default();
+                        for (coll, path) in [("walls", vec!["walls"]), ("windows", vec!["windows"]), ("spaces", vec!["spaces"])] {
+                            let els = closure::collection(&v, &path);
+                            for e in els {
+                                if let Some(n) = e.get("name").and_then(|x| x.as_str()) {
+                                    if els.iter().filter(|x| x.get("name").and_then(|v| v.as_str()) == Some(n)).count() == 1 {
+                                        has_elem.insert(format!("{}/{}", coll, n));
+                                    }
+                                }
+                            }
+                        }
+                        for (k, want) in text_named_links(&damaged) {
+                            let elem = k.rsplitn(2, '/').last().unwrap_or("").to_string();
+                            if !has_elem.contains(&elem) {
+                                continue;
+                            }
+                            match nl.get(&k) {
+                                Some(got) if got.trim() == want.trim() => {}
+                                Some(got) => retargeted.push(format!("{} -> '{}' (the project text says '{}')", k, got, want)),
+                                None => retargeted.push(format!("{} -> nothing (the project text says '{}')", k, want)),
+                            }
+                        }
+                    }
                     (broken, warnings.len(), lost, retargeted)
                 });
                 match r {
